@@ -209,8 +209,58 @@ def cached_scenarios():
     return C
 
 
-def run_one(name, initial, make, preemptions, line_mode=False, random_switch=None):
-    sched = Scheduler(preemptions, line_mode=line_mode, random_switch=random_switch)
+def cached3_scenarios():
+    """two mutations through the cached guard's storage overlapping each other with a decision in between; the answer
+    after the first mutation differs from the answer after both (explored with the delay-bounded schedules)"""
+    C = []
+
+    def mk(name, initial, mut_a, mut_b):
+        def make(w):
+            guard, st, cache = create_cached_guard(w.st, RegexChecker(), maxsize=8)
+            marks = {}
+            return [lambda: mut_a(st), decision_body(w, guard, marks, 'd1'), lambda: mut_b(st)], \
+                ['mutation', 'decision', 'mutation'], marks, guard
+        C.append((name, initial, make))
+    mk('cached3:update-to-deny|decision|update-to-allow', [pol('a')],
+       lambda st: st.update(pol('a', 'deny')), lambda st: st.update(pol('a')))
+    mk('cached3:add-deny|decision|delete-deny', [pol('a')],
+       lambda st: st.add(pol('c', 'deny')), lambda st: st.delete('c'))
+    mk('cached3:delete-allow|decision|add-allow', [pol('a')],
+       lambda st: st.delete('a'), lambda st: st.add(pol('b')))
+    return C
+
+
+def delay_schedules(name, initial, make):
+    """delay-bounded exploration (round robin, one delay): from every start thread, the running thread is sent to the
+    back of the queue at one yield point - every source line of the modules that touch shared state, every bytecode
+    of memory.py, every instrumented access"""
+    out = []
+    n = len(make(World(Scheduler(), initial))[0])
+    for start in range(n):
+        try:
+            base = run_one(name, initial, make, {0: start}, line_mode=True, cyclic=True, coarse=True)
+        except Stuck:
+            UNSCHEDULABLE.append((name, ((0, start),)))
+            continue
+        out.append((((0, start),),) + base)
+        for (step, tid, label, runnable) in base[1].trace:
+            later = [t for t in runnable if t > tid]
+            others = [t for t in runnable if t != tid]
+            if not others:
+                continue
+            nxt = later[0] if later else others[0]
+            pre = ((0, start), (step, nxt))
+            try:
+                r = run_one(name, initial, make, dict(pre), line_mode=True, cyclic=True, coarse=True)
+            except Stuck:
+                UNSCHEDULABLE.append((name, pre))
+                continue
+            out.append((pre,) + r)
+    return out
+
+
+def run_one(name, initial, make, preemptions, line_mode=False, random_switch=None, cyclic=False, coarse=False):
+    sched = Scheduler(preemptions, line_mode=line_mode, random_switch=random_switch, cyclic=cyclic, coarse=coarse)
     w = World(sched, [copy.copy(p) for p in initial])
     made = make(w)
     bodies, kinds, marks = made[0], made[1], made[2]
@@ -308,19 +358,45 @@ def model_line(name, w, kinds):
     return 'CONC %d %d %s' % (len(kinds), len(toks), ' '.join(toks))
 
 
+_WARM = []
+
+
+def _warm():
+    """CPython 3.12 delivers bytecode-level trace events for a code object only from the second traced run of a process
+    on (the instrumentation is installed by the first); one throw-away traced run makes every schedule of this process
+    see the same yield points"""
+    if not _WARM:
+        _WARM.append(1)
+        name, initial, make = scenarios()[0]
+        for _ in range(2):
+            try:
+                run_one(name, initial, make, {}, line_mode=True)
+            except Stuck:
+                pass
+        name, initial, make = cached_scenarios()[0]
+        try:
+            run_one(name, initial, make, {}, line_mode=True)
+        except Stuck:
+            pass
+
+
 def _enum_job(args):
     """one scenario, all schedules up to the bound; returns plain data (runs in a forked worker)"""
     idx, bound, limit = args
-    name, initial, make = (scenarios() + cached_scenarios())[idx]
+    name, initial, make = (scenarios() + cached_scenarios() + cached3_scenarios())[idx]
+    _warm()
     del UNSCHEDULABLE[:]
     cached = name.startswith('cached:')
     res = {'name': name, 'runs': 0, 'failures': [], 'nontriv': [], 'lines': [], 'samples': [], 'stuck': None,
            'unschedulable': [], 'counts': {}}
     try:
-        # the cached guard's window lies between source lines (lru_cache stores after the wrapped call returns):
-        # its schedules are enumerated at line / bytecode granularity
-        runs = enumerate_schedules(name, initial, make, bound if not cached else min(bound, 2),
-                                   limit if not cached else limit * 4, line_mode=cached)
+        if name.startswith('cached3:'):
+            runs = delay_schedules(name, initial, make)
+        else:
+            # the cached guard's window lies between source lines (lru_cache stores after the wrapped call returns):
+            # its schedules are enumerated at line / bytecode granularity
+            runs = enumerate_schedules(name, initial, make, bound if not cached else min(bound, 2),
+                                       limit if not cached else limit * 4, line_mode=cached)
     except Stuck as e:
         res['stuck'] = str(e)
         return res
@@ -332,14 +408,14 @@ def _enum_job(args):
         if problems:
             f = Failure('oracle', desc, desc['results'], None, problems[0],
                         'Vakt.C14.decision_linearizable / add_once / no_interleaving_error', size=len(pre))
-            if cached and 'served from a decision computed against the older set' in problems[0]:
+            if (cached or name.startswith('cached3:')) and 'served from a decision computed against the older set' in problems[0]:
                 f.signature = 'lru-stale-insert'
             else:
                 f.signature = 'oracle:' + name
             res['failures'].append(f)
         if len(pre) >= 1:
             res['nontriv'].append('%s %r' % (name, pre))
-        if not cached:
+        if not cached and not name.startswith('cached3:'):
             kinds = make(World(Scheduler(), initial))[1]
             res['lines'].append((model_line(name, w, kinds), desc, desc['results']))
         if len(res['samples']) < 1 and len(pre) == 2 and not problems:
@@ -355,6 +431,7 @@ def _rand_job(args):
     seed, n = args
     rng = random.Random(seed)
     sc = scenarios()
+    _warm()
     del UNSCHEDULABLE[:]
     res = {'runs': 0, 'failures': [], 'nontriv': [], 'yield': 0, 'unschedulable': [], 'stuck': None}
     for _ in range(n):
@@ -386,7 +463,7 @@ def run(ctx):
     bound = 2 if ctx.tier == 'quick' else 3
     limit = 800 if ctx.tier == 'quick' else 3000
     lines, meta = [], []
-    nsc = len(scenarios() + cached_scenarios())
+    nsc = len(scenarios() + cached_scenarios() + cached3_scenarios())
     nrand = ctx.budget(240, 12000)
     chunks = max(1, min(ctx.procs, nrand // 20))
     rjobs = [(rng.getrandbits(48), nrand // chunks + (1 if i < nrand % chunks else 0)) for i in range(chunks)]
@@ -452,8 +529,11 @@ def run(ctx):
 
 def replay(ctx, rp):
     c = rp['case']
-    for name, initial, make in scenarios() + cached_scenarios():
+    _warm()
+    for name, initial, make in scenarios() + cached_scenarios() + cached3_scenarios():
         if name == c.get('scenario') and 'preemptions' in c:
-            results, sched, w, problems = run_one(name, initial, make, {int(a): int(b) for a, b in c['preemptions']})
+            delay = name.startswith('cached3:')
+            results, sched, w, problems = run_one(name, initial, make, {int(a): int(b) for a, b in c['preemptions']},
+                                                  line_mode=delay or name.startswith('cached:'), cyclic=delay, coarse=delay)
             return {'results': [list(map(str, r)) for r in results], 'problems': problems, 'still_fails': bool(problems)}
-    return {'still_fails': None}
+    return {'still_fails': None, 'note': 'random deep schedule: re-run the check with the recorded seed'}
